@@ -24,7 +24,7 @@ import (
 
 type optRec struct {
 	Cred    string `json:"cred"`
-	Dyn     bool   `json:"dyn"`
+	DCred   string `json:"dcred"` // result class of AuthCredentialsFn: off (no provider) | empty | pass | userpass | useronly
 	Name    string `json:"name"`
 	DB      int    `json:"db"`
 	Cache   string `json:"cache"`
@@ -43,6 +43,7 @@ type faultRec struct {
 	Slot string `json:"slot"`
 	Step int    `json:"step"`
 	Kind string `json:"kind"`
+	Txt  string `json:"txt"` // kind "err": which error text the server answers with (the specification knows its class)
 }
 
 type sessRec struct {
@@ -64,7 +65,12 @@ type slotRec struct {
 	Log  [][]string `json:"log"`
 	Out  string     `json:"out"`
 	Sess sessRec    `json:"sess"`
-	Cred string     `json:"cred"`
+	Need pairRec    `json:"need"` // the one credential pair the specification lets this connection use (server user table)
+}
+
+type pairRec struct {
+	U string `json:"u"`
+	P string `json:"p"`
 }
 
 type caseRec struct {
@@ -86,28 +92,70 @@ const (
 	addrS = "127.0.0.1:26379"
 )
 
-func usersFor(cred string) map[string]string {
-	switch cred {
-	case "pass":
-		return map[string]string{"default": "pw"}
-	case "userpass":
-		return map[string]string{"default": "dpw", "u1": "pw"}
-	case "spass":
-		return map[string]string{"default": "spw"}
+// usersFor builds the user table of a fake server from the pair Setup.tla (AuthOK) says it accepts: no users for the
+// empty pair, the default user's password for a password-only pair, otherwise an ACL user (empty password = nopass)
+// next to a default user with an unrelated password.
+func usersFor(need pairRec) map[string]string {
+	switch {
+	case need.U == "" && need.P == "":
+		return nil
+	case need.U == "":
+		return map[string]string{"default": need.P}
 	}
-	return nil
+	return map[string]string{"default": "dpw", need.U: need.P}
 }
 
-func credsFor(cred string) (user, pass string) {
+// staticPair / dynPair are the concrete values of the credential classes of Setup.tla (StaticPair, DynPair); they only
+// fill the option record in - which pair a connection must use is read from the CASE record (slot.need, slot.log).
+func staticPair(cred string) (user, pass string) {
 	switch cred {
 	case "pass":
 		return "", "pw"
 	case "userpass":
 		return "u1", "pw"
+	case "useronly":
+		return "u1", ""
 	case "spass":
 		return "", "spw"
 	}
 	return "", ""
+}
+
+func dynPair(dcred string, sentinel bool) (user, pass string) {
+	x := ""
+	if sentinel {
+		x = "s"
+	}
+	switch dcred {
+	case "pass":
+		return "", "tok" + x
+	case "userpass":
+		return "u2" + x, "tok2" + x
+	case "useronly":
+		return "u2" + x, ""
+	}
+	return "", ""
+}
+
+// errText is the wire text of an injected error reply of class fault.txt answering command argv.
+func errText(txt string, argv []string) string {
+	switch txt {
+	case "noperm":
+		return "NOPERM User default has no permissions to run the '" + strings.ToLower(argv[0]) + "' command"
+	case "noauth":
+		return "NOAUTH Authentication required."
+	case "loading":
+		return "LOADING Redis is loading the dataset in memory"
+	case "unkself":
+		return "ERR unknown command '" + argv[0] + "', with args beginning with: "
+	case "unkhello":
+		return "ERR unknown command 'HELLO', with args beginning with: '3' "
+	case "readonly":
+		return "READONLY You can't write against a read only replica."
+	case "wrongpass":
+		return "WRONGPASS invalid username-password pair or user is disabled."
+	}
+	return "ERR injected failure"
 }
 
 func subst(log [][]string) []string {
@@ -164,10 +212,37 @@ func firstDiff(want, got []string) string {
 	}
 	for i := 0; i < len(want) || i < len(got); i++ {
 		if i >= len(want) || i >= len(got) || want[i] != got[i] {
-			return fmt.Sprintf("want=%s/got=%s", name(want, i), name(got, i))
+			d := fmt.Sprintf("want=%s/got=%s", name(want, i), name(got, i))
+			if i < len(want) && i < len(got) && name(want, i) == name(got, i) {
+				d += " differ=" + argDiff(strings.Fields(want[i]), strings.Fields(got[i]))
+			}
+			return d
 		}
 	}
 	return ""
+}
+
+// argDiff names the part of two equally named commands that differs: the last keyword in front of the first differing
+// argument and the offset behind it (HELLO 3 AUTH u p: "AUTH+1" = the user name, "AUTH+2" = the password).
+func argDiff(w, g []string) string {
+	kw, at := "arg", 0
+	for j := 0; j < len(w) || j < len(g); j++ {
+		if j < len(w) && j < len(g) && w[j] == g[j] {
+			switch up := strings.ToUpper(w[j]); up {
+			case "AUTH", "SETNAME", "TRACKING", "SETINFO", "SELECT", "HELLO":
+				kw, at = up, j
+			}
+			continue
+		}
+		if j >= len(w) {
+			return fmt.Sprintf("%s+%d-extra", kw, j-at)
+		}
+		if j >= len(g) {
+			return fmt.Sprintf("%s+%d-missing", kw, j-at)
+		}
+		return fmt.Sprintf("%s+%d", kw, j-at)
+	}
+	return "none"
 }
 
 func trackOf(c *fakeredis.Conn) string {
@@ -180,12 +255,35 @@ func trackOf(c *fakeredis.Conn) string {
 
 type setupStats struct {
 	cases, nontrivial int64
+	mu                sync.Mutex
+	perKind           map[string]int // reported violations per kind of mismatch (without the case class)
+	suppressed        int
+}
+
+// admit keeps the report readable when one defect shows in hundreds of cases: at most 8 violations per kind of
+// mismatch (e.g. "log-mismatch slot=M1 out=ok3 want=HELLO3/got=HELLO3 differ=AUTH+1") are reported with their case, the
+// rest is counted in extra.suppressed_violations.
+func (st *setupStats) admit(kind string) bool {
+	st.mu.Lock()
+	defer st.mu.Unlock()
+	if st.perKind == nil {
+		st.perKind = map[string]int{}
+	}
+	st.perKind[kind]++
+	if st.perKind[kind] > 8 {
+		st.suppressed++
+		return false
+	}
+	return true
 }
 
 func (c *caseRec) class() string {
 	f := "nofault"
 	if c.Fault.Kind != "none" {
 		f = fmt.Sprintf("%s@%s", c.Fault.Kind, c.Fault.Slot)
+		if c.Fault.Txt != "" {
+			f = fmt.Sprintf("%s:%s@%s", c.Fault.Kind, c.Fault.Txt, c.Fault.Slot)
+		}
 	}
 	return fmt.Sprintf("topo=%s srv=%s fault=%s ucmd=%s", c.O.Topo, c.Srv, f, c.UCmd)
 }
@@ -228,6 +326,13 @@ func runSetup(rep *vh.Report) {
 	}
 	close(ch)
 	wg.Wait()
+	if st.suppressed > 0 {
+		if rep.Extra == nil {
+			rep.Extra = map[string]any{}
+		}
+		rep.Extra["suppressed_violations"] = st.suppressed
+		rep.Extra["violations_per_kind"] = st.perKind
+	}
 	rep.Evaluations = int(st.cases)
 	rep.DistinctNontrivial = int(st.nontrivial)
 	rep.Traces = int(st.cases)
@@ -252,7 +357,7 @@ func runCase(rep *vh.Report, c *caseRec, st *setupStats) {
 		sopt.MaxProto = 2
 	}
 	mo := sopt
-	mo.Users = usersFor(c.M1.Cred)
+	mo.Users = usersFor(c.M1.Need)
 	M := fakeredis.NewServer("M", mo)
 	defer M.Close()
 	nw := fakeredis.NewNetwork()
@@ -260,7 +365,7 @@ func runCase(rep *vh.Report, c *caseRec, st *setupStats) {
 	var S *fakeredis.Server
 	if c.O.Topo == "sentinel" {
 		so := sopt
-		so.Users = usersFor(c.S1.Cred)
+		so.Users = usersFor(c.S1.Need)
 		S = fakeredis.NewServer("S", so)
 		defer S.Close()
 		nw.Add(addrS, S)
@@ -288,7 +393,7 @@ func runCase(rep *vh.Report, c *caseRec, st *setupStats) {
 			if slot != "" && slot == c.Fault.Slot && len(cn.Log())-1 == c.Fault.Step {
 				switch c.Fault.Kind {
 				case "err":
-					return fakeredis.Err("ERR injected failure"), fakeredis.Reply
+					return fakeredis.Err(errText(c.Fault.Txt, argv)), fakeredis.Reply
 				case "cut":
 					return fakeredis.Value{}, fakeredis.CutNow
 				case "proto2map":
@@ -348,16 +453,17 @@ func runCase(rep *vh.Report, c *caseRec, st *setupStats) {
 		n := atomic.AddInt32(&authM, 1)
 		return (n == 1 && c.Fault.Slot == "M1") || (n == 2 && c.Fault.Slot == "M2")
 	}
-	u, p := credsFor(c.O.Cred)
-	if c.O.Dyn {
+	// static credentials AND (dcred != off) a provider: both are configured, the provider answers per address
+	opt.Username, opt.Password = staticPair(c.O.Cred)
+	if c.O.DCred != "off" {
 		opt.AuthCredentialsFn = func(ac rueidis.AuthCredentialsContext) (rueidis.AuthCredentials, error) {
-			if failAuth(ac.Address.String()) {
+			addr := ac.Address.String()
+			if failAuth(addr) {
 				return rueidis.AuthCredentials{}, errors.New("injected AuthCredentialsFn failure")
 			}
+			u, p := dynPair(c.O.DCred, addr == addrS)
 			return rueidis.AuthCredentials{Username: u, Password: p}, nil
 		}
-	} else {
-		opt.Username, opt.Password = u, p
 	}
 	switch c.O.Cache {
 	case "custom":
@@ -387,12 +493,15 @@ func runCase(rep *vh.Report, c *caseRec, st *setupStats) {
 	case "sentinel":
 		opt.InitAddress = []string{addrS}
 		opt.Sentinel.MasterSet = "mymaster"
-		su, sp := credsFor(c.O.SCred)
+		su, sp := staticPair(c.O.SCred)
 		opt.Sentinel.Username, opt.Sentinel.Password, opt.Sentinel.ClientName = su, sp, c.O.SName
 		opt.Sentinel.Dialer.KeepAlive = 10 * time.Minute
 	}
 
 	bad := func(kind, detail string) {
+		if !st.admit(kind) {
+			return
+		}
 		rep.Violate(fmt.Sprintf("setup-%s %s", kind, c.class()), detail, map[string]any{"case": c, "logs": snapshot(M, S)})
 	}
 
